@@ -153,9 +153,29 @@ def expected(s, pool_vals, traverse=True, top=True):
     raise ValueError(s)
 
 
+def _holds_collection(x, depth=0):
+    from dask.base import is_dask_collection
+
+    if is_dask_collection(x):
+        return True
+    if depth > 6:
+        return False
+    if isinstance(x, dict):
+        return any(_holds_collection(k, depth + 1) or _holds_collection(v, depth + 1) for k, v in x.items())
+    if isinstance(x, (list, tuple, set, frozenset)):
+        return any(_holds_collection(v, depth + 1) for v in x)
+    if dataclasses.is_dataclass(x) and not isinstance(x, type):
+        return any(_holds_collection(getattr(x, f.name, None), depth + 1) for f in dataclasses.fields(x))
+    return False
+
+
 def equal(a, b):
     import pandas as pd
 
+    # a lazy collection left inside a computed result (or an expectation) never equals a concrete value
+    # (and must not be compared: Delayed refuses ==/bool)
+    if _holds_collection(a) != _holds_collection(b):
+        return False
     if type(a) is not type(b):
         if isinstance(a, (np.generic, int, float)) and isinstance(b, (np.generic, int, float)):
             return np.asarray(a).dtype.kind == np.asarray(b).dtype.kind and a == b
